@@ -138,6 +138,7 @@ fn main() {
             let what = pos.first().expect("variant").clone();
             match what.parse::<u64>() {
                 Ok(variant) => gen_tf::conc_worker(variant, &o),
+                Err(_) if what == "dec" => gen_yuv::conc_worker(&o),
                 Err(_) => gen_color::conc_worker(&what, &o),
             }
         }
